@@ -8,6 +8,9 @@ package parser
 
 //@ pred PInv(p *Parser) := 0 <= p.peekCount && p.peekCount <= 1 && p.input == strmInput && p.lexer != nil
 //@     && (p.peekCount == 1 ==> TokOK(p.buffer[0]) && p.buffer[0].Type == strmLastT)
+//@     && strmN >= p.peekCount && (strmN > 0 ==> p.buffer[0] == strmAll[strmN - 1])
+// pcur: how many tokens of strmAll the parser has consumed (delivered minus the one pushed back)
+//@ pred pcur(p *Parser) := strmN - p.peekCount
 //@ pred Ready(p *Parser) := !strmDone || p.peekCount > 0
 //@ pred avail(p *Parser) := strmLeft + p.peekCount
 
@@ -17,16 +20,17 @@ package parser
 
 //@ func (*Parser).next
 //@ requires PInv(p) && SInv() && Ready(p)
-//@ modifies p.peekCount, p.buffer, strmLeft, strmDone, strmExp, strmLastT
+//@ modifies p.peekCount, p.buffer, strmLeft, strmDone, strmExp, strmLastT, strmN
 //@ ensures PInv(p) && SInv() && p.peekCount == 0 && result == p.buffer[0] && TokOK(result) && result.Type == strmLastT
 //@ ensures avail(p) == old(avail(p)) - 1
+//@ ensures [F1] result == strmAll[old(pcur(p))] && pcur(p) == old(pcur(p)) + 1
 //@ ensures old(p.peekCount) > 0 ==> strmDone == old(strmDone) && strmExp == old(strmExp) && result == old(p.buffer[0])
 //@ ensures old(p.peekCount) == 0 ==> strmDone == (result.Type == token.EOF || result.Type == token.ERROR) && expOK(old(strmExp), result.Type) && strmExp == expNext(old(strmExp), result.Type)
 
 //@ func (*Parser).backup
-//@ requires PInv(p) && p.peekCount == 0 && TokOK(p.buffer[0]) && p.buffer[0].Type == strmLastT
+//@ requires PInv(p) && p.peekCount == 0 && TokOK(p.buffer[0]) && p.buffer[0].Type == strmLastT && strmN > 0
 //@ modifies p.peekCount
-//@ ensures PInv(p) && p.peekCount == 1
+//@ ensures PInv(p) && p.peekCount == 1 && pcur(p) == old(pcur(p)) - 1
 
 //@ func (*Parser).getLine
 //@ requires p.input == strmInput && (token.Line == 0 || (1 <= token.Line && token.Line <= nlines(p.input)))
@@ -37,13 +41,13 @@ package parser
 
 //@ func (*Parser).expect
 //@ requires PInv(p) && SInv() && Ready(p)
-//@ modifies p.peekCount, p.buffer, strmLeft, strmDone, strmExp, strmLastT
+//@ modifies p.peekCount, p.buffer, strmLeft, strmDone, strmExp, strmLastT, strmN
 //@ ensures PInv(p) && SInv() && ErrOK(result) && avail(p) < old(avail(p))
 //@ ensures result == nil ==> p.peekCount == 0 && strmLastT == expected && p.buffer[0].Type == expected && TokOK(p.buffer[0]) && (expected != token.EOF && expected != token.ERROR ==> !strmDone)
 
 //@ func (*Parser).parseFunction
 //@ requires PInv(p) && SInv() && Ready(p)
-//@ modifies p.peekCount, p.buffer, strmLeft, strmDone, strmExp, strmLastT
+//@ modifies p.peekCount, p.buffer, strmLeft, strmDone, strmExp, strmLastT, strmN
 //@ ensures PInv(p) && SInv() && ErrOK(result1) && avail(p) <= old(avail(p))
 //@ ensures result1 == nil ==> !strmDone && p.peekCount == 0
 //@ ensures [wellformed-nodes] result1 == nil ==> ArgsOK(result0.Arguments)
@@ -55,7 +59,7 @@ package parser
 //@ func (*Parser).parseAssign
 
 //@ requires PInv(p) && SInv() && Ready(p)
-//@ modifies p.peekCount, p.buffer, strmLeft, strmDone, strmExp, strmLastT
+//@ modifies p.peekCount, p.buffer, strmLeft, strmDone, strmExp, strmLastT, strmN
 //@ ensures PInv(p) && SInv() && ErrOK(result1) && avail(p) <= old(avail(p))
 //@ ensures result1 == nil ==> Ready(p)
 //@ ensures [wellformed-nodes] result1 == nil ==> result0.Value != nil && (typeIs(result0.Value, ast.Function) ==> ArgsOK(unbox(result0.Value, ast.Function).Arguments))
@@ -63,17 +67,27 @@ package parser
 
 //@ func (*Parser).parseTaskDependencies
 //@ requires PInv(p) && SInv() && Ready(p)
-//@ modifies p.peekCount, p.buffer, strmLeft, strmDone, strmExp, strmLastT
+//@ modifies p.peekCount, p.buffer, strmLeft, strmDone, strmExp, strmLastT, strmN
 //@ ensures PInv(p) && SInv() && ErrOK(result1) && avail(p) <= old(avail(p))
 //@ ensures result1 == nil ==> !strmDone && p.peekCount == 0
 //@ ensures [wellformed-nodes] result1 == nil ==> ArgsOK(result0)
+// F1: the dependencies are exactly the STRING / IDENT tokens up to the closing parenthesis, in order,
+// each copied verbatim; nothing but commas stands between them
+//@ ensures [F1,list-ends-at-the-closing-parenthesis] result1 == nil ==> pcur(p) > old(pcur(p)) && strmAll[pcur(p) - 1].Type == token.RPAREN
+//@ ensures [F1,only-arguments-and-commas] result1 == nil ==> forall m int :: {strmAll[m]} old(pcur(p)) <= m && m < pcur(p) - 1 ==> isArgTok(strmAll[m]) || strmAll[m].Type == token.COMMA
+//@ ensures [F1,one-node-per-argument-token-in-order] result1 == nil ==> len(result0) == nArgs(strmAll, old(pcur(p)), pcur(p) - 1) && forall k int :: {result0[k]} 0 <= k && k < len(result0) ==> nodeIsTok(result0[k], strmAll[argIx(strmAll, old(pcur(p)), k)])
 //@ loop 0: invariant PInv(p) && SInv() && p.peekCount == 0 && TokOK(next) && next.Type == strmLastT && avail(p) <= old(avail(p))
 //@ loop 0: invariant ArgsOK(dependencies)
+//@ loop 0: invariant [F1] pcur(p) > old(pcur(p)) && next == strmAll[pcur(p) - 1]
+//@ loop 0: invariant [F1] forall m int :: {strmAll[m]} old(pcur(p)) <= m && m < pcur(p) - 1 ==> isArgTok(strmAll[m]) || strmAll[m].Type == token.COMMA
+//@ loop 0: invariant [F1] len(dependencies) == nArgs(strmAll, old(pcur(p)), pcur(p) - 1) && forall k int :: {dependencies[k]} 0 <= k && k < len(dependencies) ==> nodeIsTok(dependencies[k], strmAll[argIx(strmAll, old(pcur(p)), k)])
 //@ loop 0: decreases avail(p)
+//@ at call next#1: use nArgs_unfold(strmAll, old(pcur(p)), pcur(p))
+//@ at call next#1: use argIx_at(strmAll, old(pcur(p)), pcur(p) - 1)
 
 //@ func (*Parser).parseTaskOutputs
 //@ requires PInv(p) && SInv() && Ready(p)
-//@ modifies p.peekCount, p.buffer, strmLeft, strmDone, strmExp, strmLastT
+//@ modifies p.peekCount, p.buffer, strmLeft, strmDone, strmExp, strmLastT, strmN
 //@ ensures PInv(p) && SInv() && avail(p) <= old(avail(p))
 //@ ensures [located] ErrOK(result1)
 //@ ensures result1 == nil ==> Ready(p)
@@ -84,7 +98,7 @@ package parser
 
 //@ func (*Parser).parseTaskCommands
 //@ requires PInv(p) && SInv() && !strmDone && p.peekCount == 0 && strmExp == 3
-//@ modifies p.peekCount, p.buffer, strmLeft, strmDone, strmExp, strmLastT
+//@ modifies p.peekCount, p.buffer, strmLeft, strmDone, strmExp, strmLastT, strmN
 //@ ensures PInv(p) && SInv() && ErrOK(result1) && avail(p) <= old(avail(p))
 //@ ensures result1 == nil ==> !strmDone && p.peekCount == 0
 //@ loop 0: invariant PInv(p) && SInv() && p.peekCount == 0 && !strmDone && strmExp == 3 && avail(p) <= old(avail(p))
@@ -92,14 +106,14 @@ package parser
 
 //@ func (*Parser).parseTask
 //@ requires PInv(p) && SInv() && !strmDone && p.peekCount == 0 && strmLastT == token.TASK
-//@ modifies p.peekCount, p.buffer, strmLeft, strmDone, strmExp, strmLastT
+//@ modifies p.peekCount, p.buffer, strmLeft, strmDone, strmExp, strmLastT, strmN
 //@ ensures PInv(p) && SInv() && ErrOK(result1) && avail(p) <= old(avail(p))
 //@ ensures result1 == nil ==> Ready(p)
 //@ ensures [wellformed-nodes] result1 == nil ==> ArgsOK(result0.Dependencies) && ArgsOK(result0.Outputs)
 
 //@ func (*Parser).Parse
 //@ requires PInv(p) && SInv() && !strmDone && p.peekCount == 0
-//@ modifies p.peekCount, p.buffer, strmLeft, strmDone, strmExp, strmLastT
+//@ modifies p.peekCount, p.buffer, strmLeft, strmDone, strmExp, strmLastT, strmN
 //@ ensures [located] ErrOK(result1)
 //@ ensures [wellformed-nodes] result1 == nil ==> NodesOK(result0.Nodes)
 //@ loop 0: invariant PInv(p) && SInv() && p.peekCount == 0 && TokOK(next) && next.Type == strmLastT
@@ -110,8 +124,8 @@ package parser
 // stream is initialised for this input (the Tokeniser link is trusted, DESIGN.md section 5).
 //@ func New
 //@ trusted starts the lexer goroutine; initial state of the parser-side stream ghosts
-//@ modifies strmLeft, strmDone, strmExp, strmLastT, strmInput
-//@ ensures result != nil && fresh(result) && PInv(result) && SInv() && !strmDone && result.peekCount == 0 && strmInput == input
+//@ modifies strmLeft, strmDone, strmExp, strmLastT, strmInput, strmN
+//@ ensures result != nil && fresh(result) && PInv(result) && SInv() && !strmDone && result.peekCount == 0 && strmInput == input && strmN == 0
 
 // ---- verbatim copying of token values into nodes (C06: "the same names, the same strings verbatim") ----
 //@ func (*Parser).parseIdent
